@@ -129,8 +129,9 @@ type Contracts struct {
 	Files       []string
 	GlobalLocks map[string]*LockDecl // package-level mutex variable (full name) -> declaration
 	LoadErrors  []loadError
-	Assumes     []string // free-text assumptions declared in spec files
-	SMT         []string // raw SMT prelude chunks
+	Assumes     []string          // free-text assumptions declared in spec files
+	AssumeFile  map[string]string // assumption text -> declaring file
+	SMT         []string          // raw SMT prelude chunks
 }
 
 func newContracts() *Contracts {
@@ -564,6 +565,10 @@ func (c *Contracts) loadFile(path, pkg string, trusted bool) error {
 			}
 		case "assume-text":
 			c.Assumes = append(c.Assumes, rc.text)
+			if c.AssumeFile == nil {
+				c.AssumeFile = map[string]string{}
+			}
+			c.AssumeFile[rc.text] = path
 		case "smt":
 			c.SMT = append(c.SMT, rc.text)
 		}
